@@ -183,11 +183,63 @@ def run_batch(programs, ctx, rng, tmp):
     return problems
 
 
+class _Handle:
+    """An object dask cannot tokenize deterministically (it holds a lock): arrays of these get a random token."""
+
+    def __init__(self, i):
+        import threading
+
+        self.i = i
+        self.lock = threading.Lock()  # neither picklable nor tokenizable
+
+
+def _ident(b):
+    return b
+
+
+def fixed_token_cases(ctx, rng):
+    """Sources documented as untokenizable get a random token - but a FIXED one per instance: building the same program
+    twice over one such instance (a from_array of lock-bearing objects, its persisted form, a custom-named array)
+    gives the same name and the same keys both times."""
+    import dask_array as da
+
+    out = []
+    for variant in ("from_array", "persisted", "persisted_slice"):
+        n = rng.randint(2, 6)
+        obj = np.empty(n, dtype=object)
+        obj[:] = [_Handle(i) for i in range(n)]
+        try:
+            x = da.from_array(obj, chunks=rng.randint(1, n))
+            base = x if variant == "from_array" else x.persist()
+            if variant == "persisted_slice":
+                base = base[1:]
+            builds = []
+            for _ in range(3):
+                y = base.map_blocks(_ident, dtype=object)
+                z = da.concatenate([y, base])
+                builds.append((y.name, tuple(map(str, y.__dask_keys__())), z.name, tuple(sorted(map(str, z.optimize().__dask_graph__().keys())))))
+        except Exception as e:
+            ctx.tab("fixed_token_case_raised", f"{variant}:{type(e).__name__}")
+            continue
+        ctx.count("fixed_token_builds_compared", len(builds) - 1)
+        for b in builds[1:]:
+            for field, u, w in zip(("name", "keys", "name of a second consumer", "optimized key set"), builds[0], b):
+                if u != w:
+                    out.append(("instance_token_not_fixed", f"{variant}: the same program built twice over one untokenizable instance differs in {field}: {str(u)[:120]} vs {str(w)[:120]}", f"fixed_token:{variant}:{field.split()[0]}", {"steps": [], "fixed_token": variant}))
+                    break
+    return out
+
+
 def run_all(ctx):
     from vf.common import now
 
     big = ctx.tier == "thorough"
     nb = 0
+    seen_ft = set()
+    for kind, msg, mech, case in fixed_token_cases(ctx, random.Random(f"{ctx.seed}:{ctx.index}:ft")):
+        if mech not in seen_ft:
+            seen_ft.add(mech)
+            ctx.violation(kind, msg, case=case, mech=mech)
     while now() < ctx.deadline and nb < (12 if big else 3):
         rng = random.Random(f"{ctx.seed}:{ctx.index}:{nb}")
         programs = []
@@ -223,6 +275,10 @@ def run_all(ctx):
 
 
 def replay_case(case, ctx):
+    if case.get("fixed_token"):
+        for kind, msg, mech, c in fixed_token_cases(ctx, random.Random(0)):
+            ctx.violation(kind, msg, case=case, mech=mech)
+        return
     tmp = tempfile.mkdtemp(prefix="c07_")
     try:
         problems = run_batch([{"steps": case["steps"]}], ctx, random.Random(0), tmp)
